@@ -345,3 +345,88 @@ func (a *allFinished) countAfter(pred func(ssa.Instruction) bool) Interval {
 		return 0, 0
 	}}.Count()
 }
+
+
+// templateCacheRule: a cache of parsed templates must be keyed by something that determines the template text. The rule
+// accepts the exact form: in the function that parses (text/template Parse(x)) and stores the result in a sync.Map, the
+// key given to Load / Store derives from the same parameter as x (the text itself). A key assembled from names
+// (scenario, step, part) is not accepted: names joined with a separator are ambiguous, and a dynamic part name
+// (a header or metadata key) can equal a fixed one ("url", "body", "payload").
+func templateCacheRule(c *Ctx, id, pkgRel string) {
+	P := c.P
+	sp := P.SSAPkg(pkgRel)
+	if sp == nil {
+		c.Anchor(id, "package "+pkgRel)
+		return
+	}
+	params := func(v ssa.Value) map[*ssa.Parameter]bool {
+		out := map[*ssa.Parameter]bool{}
+		SliceAny(v, func(r ssa.Value) bool {
+			if p, ok := r.(*ssa.Parameter); ok {
+				out[p] = true
+			}
+			// fmt.Sprintf(...) and friends: look into the operands
+			if cl, ok := r.(*ssa.Call); ok {
+				for _, a := range cl.Call.Args {
+					for p := range paramsOfArg(a) {
+						out[p] = true
+					}
+				}
+			}
+			return false
+		})
+		return out
+	}
+	n := 0
+	for _, g := range PkgFuncs(sp) {
+		if !IsProdFile(P.File(g.Pos())) {
+			continue
+		}
+		var texts []ssa.Value
+		var keys []*ssa.Call
+		EachInstr(g, func(in ssa.Instruction) {
+			cl, ok := in.(*ssa.Call)
+			if !ok {
+				return
+			}
+			if MatchCC(&cl.Call, Spec{"text/template", "Template", "Parse"}) {
+				texts = append(texts, cl.Call.Args[len(cl.Call.Args)-1])
+			}
+			if MatchCC(&cl.Call, Spec{"sync", "Map", "Load"}, Spec{"sync", "Map", "Store"}, Spec{"sync", "Map", "LoadOrStore"}) {
+				keys = append(keys, cl)
+			}
+		})
+		if len(texts) == 0 || len(keys) == 0 {
+			continue
+		}
+		textParams := map[*ssa.Parameter]bool{}
+		for _, t := range texts {
+			for p := range params(t) {
+				textParams[p] = true
+			}
+		}
+		for _, k := range keys {
+			n++
+			ok := false
+			for p := range params(k.Call.Args[1]) {
+				if textParams[p] {
+					ok = true
+				}
+			}
+			c.Check(ok, id, fk(g)+":template-cache-keyed-by-the-text:"+k.Call.StaticCallee().Name(), k.Pos(),
+				"the key of the parsed-template cache must derive from the template text itself; a key built from scenario, step and part names does not determine the text (joined names are ambiguous, a header / metadata key can equal a fixed part name)")
+		}
+	}
+	c.Floor(id, "template cache accesses in "+pkgRel, n, 2)
+}
+
+func paramsOfArg(a ssa.Value) map[*ssa.Parameter]bool {
+	out := map[*ssa.Parameter]bool{}
+	SliceAny(a, func(r ssa.Value) bool {
+		if p, ok := r.(*ssa.Parameter); ok {
+			out[p] = true
+		}
+		return false
+	})
+	return out
+}
